@@ -1,6 +1,6 @@
 #!/bin/bash
 # run every claimed check once (quick unless TIER is given); prints one line per check
-cd /verif
+cd "$(dirname "$(readlink -f "$0")")/.."
 TIER=${TIER:-quick}
 for id in $(python3 -c "import json;print(' '.join(c['property_id'] for c in json.load(open('MANIFEST.json'))['checks']))"); do
   if [ $# -gt 0 ] && [[ ! " $* " =~ " $id " ]]; then continue; fi
